@@ -836,15 +836,15 @@ Qed.
 (* ---------------------------------------------------------------- HandleZRLE *)
 (* which inflate stream of the client takes ZRLE blocks: its own (fix 11) or the one shared with the Zlib encoding *)
 Definition zrle_fresh (s : cst) : bool := if fixed s 11 then negb (c_zrlez s) else negb (zact_get s 0).
-Definition zrle_mark (s : cst) : cst := if fixed s 11 then set_zrlez s true else zact_set s 0 true.
+Definition zrle_mark (s : cst) : cst := if fixed s 11 then set_zrlez s true else zact_set (set_zrlez s true) 0 true.
 
-Lemma rd_zrle_stream_ok s fresh data ts : fresh = zrle_fresh s ->
+Lemma rd_zrle_stream_ok s fresh data ts : zs_ready c_zrlez c_zlibz s -> fresh = zrle_fresh s ->
   rd_zrle_stream s (TZ 5 fresh true data :: ts) = Ok (true, map (fun b => b mod 256) data) (zrle_mark s) ts.
 Proof.
-  intros ->. unfold rd_zrle_stream, rd_zblock, bind, get_st, upd_st, ret, zrle_fresh, zrle_mark. cbn [negb Z.eqb Pos.eqb].
-  destruct (fixed s 11).
-  - destruct (c_zrlez s); reflexivity.
-  - destruct (zact_get s 0); reflexivity.
+  intros Hr ->. unfold rd_zrle_stream, zrle_fresh, zrle_mark. unfold bind at 1. unfold get_st at 1.
+  destruct (fixed s 11) eqn:F.
+  - unfold rd_zblock, bind, get_st, upd_st, ret. cbn [negb Z.eqb Pos.eqb]. destruct (c_zrlez s); reflexivity.
+  - destruct Hr as [Hr|[H1 H2]]; [congruence|]. now apply rd_shared_ok.
 Qed.
 
 Lemma zrle_mark_same s : c_w (zrle_mark s) = c_w s /\ c_h (zrle_mark s) = c_h s /\ c_fb (zrle_mark s) = c_fb s.
@@ -854,7 +854,7 @@ Theorem roundtrip_zrle ch s x y w h tgt ts fresh :
   st_wf s -> cp_agree (c_fmt s) (variant_of s) -> fixed s 8 = true ->
   0 <= x -> 0 <= y -> 0 <= w -> 0 <= h -> x + w <= c_w s -> y + h <= c_h s ->
   rows_wf w h tgt -> Forall (Forall (cp_ok (variant_of s))) tgt ->
-  fresh = zrle_fresh s ->
+  zs_ready c_zrlez c_zlibz s -> fresh = zrle_fresh s ->
   let minsz := w * h * rbytes (variant_of s) * 2 + 4 in
   let cap := if c_rawsz s <? minsz then minsz else c_rawsz s in
   (* the scratch area must hold the tile stream: known finding C07-F2 when it does not *)
@@ -862,11 +862,11 @@ Theorem roundtrip_zrle ch s x y w h tgt ts fresh :
   dec_zrle x y w h s (ref_zrle ch (c_fmt s) fresh w h tgt ++ ts)
   = Ok tt (set_fb (zrle_mark (set_rawsz s cap)) (blit_spec (c_fb s) x y tgt)) ts.
 Proof.
-  intros Hs Hag F8 Hx Hy Hw Hh Hxw Hyh Ht Hp Hfresh minsz cap Hfit.
+  intros Hs Hag F8 Hx Hy Hw Hh Hxw Hyh Ht Hp Hready Hfresh minsz cap Hfit.
   unfold dec_zrle, ref_zrle. cbn [app].
   erewrite bind_ok; [|reflexivity]. rewrite F8. cbv zeta. fold minsz. fold cap.
   erewrite bind_ok; [|reflexivity].
-  erewrite bind_ok; [|apply rd_zrle_stream_ok; exact Hfresh].
+  erewrite bind_ok; [|apply rd_zrle_stream_ok; [exact Hready|exact Hfresh]].
   set (data := tiles_rows ch 0 (c_fmt s) false 64 (Z.to_nat (h / 64 + 1)) 0 w h tgt 0 []) in *.
   assert (Hdata : Forall byte_ok data) by (apply (zrows_bytes_ok ch (c_fmt s) (variant_of s) _ Hag); auto; lia).
   rewrite map_mod_id by exact Hdata. cbn [negb].
